@@ -80,7 +80,15 @@ fn main() {
             }
             Ok(Some(x)) => {
                 let shown = guarded(|| format!("{}", x));
-                let value = x.value();
+                // Number::value is part of the property ("whose exact value ..."): a panic in it
+                // (debug overflow) is a violation with this input, not a harness failure
+                let value = match guarded(|| x.value()) {
+                    Ok(v) => v,
+                    Err(_) => {
+                        viol.push("value_panics");
+                        f64::NAN
+                    }
+                };
                 val = f64_exact(value);
                 // declines
                 if !(v.is_finite() && v > 0.0) {
